@@ -165,20 +165,20 @@ def read_lammps(f: Any, ndim: int) -> SingleSnapshot:
         positions = np.zeros((particle_number, ndim))
         particle_type = np.zeros(particle_number, dtype=int)
 
-        if 'xu' in names or 'x' in names:
+        if names[2] in ('xu', 'x'):
             for i in range(particle_number):
                 item = f.readline().split()
                 atom_index = int(item[0]) - 1
                 particle_type[atom_index] = int(item[1])
                 positions[atom_index] = [float(j) for j in item[2: ndim + 2]]
 
-            if 'x' in names:
+            if names[2] == 'x':
                 positions = np.where(
                     positions < boxbounds[:, 0], positions + boxlength, positions)
                 positions = np.where(
                     positions > boxbounds[:, 1], positions - boxlength, positions)
 
-        elif 'xs' in names:
+        elif names[2] == 'xs':
             for i in range(particle_number):
                 item = f.readline().split()
                 atom_index = int(item[0]) - 1
@@ -241,14 +241,14 @@ def read_lammps(f: Any, ndim: int) -> SingleSnapshot:
         names = item[2:]
         positions = np.zeros((particle_number, ndim))
         particle_type = np.zeros(particle_number, dtype=int)
-        if 'xu' in names or 'x' in names:
+        if names[2] in ('xu', 'x'):
             for i in range(particle_number):
                 item = f.readline().split()
                 atom_index = int(item[0]) - 1
                 particle_type[atom_index] = int(item[1])
                 positions[atom_index] = [float(j) for j in item[2: ndim + 2]]
 
-        elif 'xs' in names:
+        elif names[2] == 'xs':
             for i in range(particle_number):
                 item = f.readline().split()
                 atom_index = int(item[0]) - 1
